@@ -8,6 +8,8 @@ try:
     result = handler.parse(source, ns_map)       # tokenizer + start/end events
 except SyntaxError as e:
     raise ParserError(e)
+# handlers/native.py, around the tokenizer's next():
+#   except (LookupError, ValueError) as e: raise ParserError(e)
 if result is not None:
     return result
 raise ParserError(f"Failed to create target class `{target_class}`")
@@ -29,16 +31,18 @@ inductive Tok
   /-- it raises `xml.etree.ElementTree.ParseError` / `lxml.etree.XMLSyntaxError`
   (both are subclasses of `SyntaxError`) before any binding error happened -/
   | syntaxError
-  /-- it raises something that is not a `SyntaxError`: pyexpat's unknown-encoding
-  callback (`LookupError`, `ValueError`, `UnicodeError` … for a declared encoding that is
-  neither built into expat nor a single-byte Python text codec) -/
-  | raised (pyType : String)
+  /-- pyexpat's unknown-encoding callback fails: for a declared encoding that is not built into
+  expat the python codecs are asked, and their `LookupError` (unknown name, not a text
+  encoding) or `ValueError` ("multi-byte encodings are not supported", `UnicodeError`) comes out
+  of the tokenizer's `next()` -/
+  | codecError (pyType : String)
 deriving Repr
 
 /-- `NodeParser.parse(source, clazz)` as far as the result class is concerned -/
 def parseDocument (e : BEnv) (Γ : Ctx) (cfg : ParserConfig) (clazz : ClassId) : Tok → Except Err (Val × Nat)
   | .tree t => parseRoot e Γ cfg clazz t
   | .syntaxError => .error (.parser "syntax error")      -- `except SyntaxError: raise ParserError`
-  | .raised ty => .error (.leaked ty)                     -- nothing else is caught
+  -- handlers/native.py `iterparse`: `except (LookupError, ValueError): raise ParserError`
+  | .codecError _ => .error (.parser "codec error")
 
 end Xs.Fault
